@@ -1498,7 +1498,7 @@ func init() {
 		Assumptions: []string{"panics are part of the digest as text (same panic on both sides compares equal)", "after a failed load only lookups and scans are compared (Stat keeps stale levels there; no property forbids it)"},
 	})
 	register(&CheckDef{
-		ID: "C07", Level: "fault_enumeration", HangIsViolation: true, HangSeconds: 300,
+		ID: "C07", Level: "fault_enumeration", HangIsViolation: true, HangSeconds: 300, MemoryIsViolation: true,
 		Rule:          "case = one valid stream (current format under a random option set, 0.5.10/0.5.11 nopref/innpref/allpref, three-section variants) of a generated key/value list; faults: Unmarshal(stream[:cut]) for EVERY cut 0..len-1 (streams <= 64 KiB; larger: every cut in each header, the first/last 64 bytes of each body and 2000 seeded interior cuts), into an instance that holds other data, part of them from a read-only buffer right-aligned against a guard page; and the header version replaced by each string of a fixed list (released 0.5.x outside the compatible set, successors, 0.6+, 1.0.1+, 2.x, pre-releases, malformed, leading zeros, embedded NUL, 16 bytes unterminated, non-UTF8) plus 30 seeded strings; oracle: cut => non-nil error, no panic; incompatible version => errors.Cause == ErrIncompatible (also via proto.Unmarshal); afterwards every lookup reports not-found/nil/-1 and every scan entry point yields nothing; build-metadata variants of compatible versions may go either way; non-trivial = stream with a body; distinct by stream hash",
 		NumCases:      c07NumCases,
 		Run:           runC07,
